@@ -293,6 +293,12 @@ C15_UNITS = [
     clsunit("cls_many", [ca("a1", rounds=3), ca("a2", rounds=3), ca("a3", rounds=1), ca("a4", rounds=1, end="panic"), ca("t1", co=False, rounds=2)], ["a1"]),
 ]
 PROPS["C15"] = dict(assumptions=["the generator crate gives each generator its own stack and local-data pointer (trusted)"], units=C15_UNITS)
+C15_UNITS += [
+    # the occupant's last park is raced by its timer and an unpark at atomic-step granularity; then the innocent one
+    pkunit("timer_vs_unpark_then_innocent", parker_co=True, kind="blocker", rounds=["tpark"], unparkers=1, unparks_each=1, innocent=True, pool_capacity=1, n=400),
+    pkunit("handle_timer_vs_unpark_then_innocent", parker_co=True, kind="handle", rounds=["tpark", "tpark"], unparkers=1, unparks_each=2, innocent=True, pool_capacity=1, n=300),
+    pkunit("cancel_vs_unpark_then_innocent", parker_co=True, kind="blocker", rounds=["park"], unparkers=1, unparks_each=1, canceller=True, innocent=True, pool_capacity=1, n=300),
+]
 PROPS["C02"]["units"] += [dict(u, name="stale_result_" + u["name"]) for u in C15_UNITS if u["name"] in ("reuse_park_cancel", "reuse_sleep_cancel", "reuse_select_cancel")]
 
 # ---------------------------------------------------------------------------------------------
